@@ -689,7 +689,7 @@ def chunk_size_ok(repo):
             self.bad = 0
 
         def check(self, rid, ok, *a, **k):
-            if not ok:
+            if not ok and "chunk-extension" not in str(a[0] if a else ""):      # (the extension is not what int(.., 16) sees)
                 self.bad += 1
 
         def table(self, *a, **k):
@@ -754,6 +754,18 @@ def chunk_size_table(ctx, rid):
                   "chunk-size line %r gives %s, RFC 9112 7.1 requires %s (the size is 1*HEXDIG -- int() alone also accepts sign, '_', blanks and a 0x prefix; BWS only before a chunk extension)" % (
                       fld, sorted(map(str, got)), want), "-> %s" % (want,))
     ctx.table(rid + " chunk-size lines (sample)", rows[:60])
+    # the chunk extension (RFC 9112 7.1.1: *( BWS ";" BWS token [ "=" ( token / quoted-string ) ] )): a bare LF, a bare CR or a
+    # NUL inside it is not extension text -- a peer that ends the line at the bare LF (many front-ends do) disagrees with this
+    # parser about every following chunk boundary
+    leaks = []
+    for ext in (b"a\nb", b"\x00", b"a\rb", b"x=\x00", b"a\n", b"\n"):
+        data = b"5;" + ext + b"\r\nREST"
+        got = set("reject" if o.kind == "raise" else "accept" for o in Explorer(f2).run(g2.entry, {DATA: data}))
+        if got != {"reject"}:
+            leaks.append(ext)
+    ctx.check(rid, not leaks, key(f2, "chunk-extension-validated"), site(f2, text="chunk-size line with a control character in the extension"),
+              "chunk-size lines whose extension holds a bare LF / bare CR / NUL (%s) are accepted: parse_chunk_size cuts the line at the first ';' and never looks at the rest, so a stream "
+              "like `2;a<LF>XX<CRLF>...` is framed differently by an LF-tolerant front-end (request smuggling primitive)" % ", ".join(repr(b"5;" + e) for e in leaks), "extension bytes validated")
 
 
 # ------------------------------------------------------------------------------- R4
